@@ -120,11 +120,11 @@ func (ft *freshTypes) values(k int) map[string]any {
 	arr := reflect.New(reflect.ArrayOf(2, ft.Item)).Elem()
 	arr.Index(1).FieldByName("V").SetInt(int64(7 * k))
 	return map[string]any{
-		"rec":   rec.Interface(),         // pointer to fresh struct
-		"recv":  rec.Elem().Interface(),  // fresh struct by value
-		"items": items.Interface(),       // slice of fresh struct
-		"tab":   tab.Interface(),         // map[string]fresh struct
-		"arr":   arr.Interface(),         // array of fresh struct
+		"rec":   rec.Interface(),        // pointer to fresh struct
+		"recv":  rec.Elem().Interface(), // fresh struct by value
+		"items": items.Interface(),      // slice of fresh struct
+		"tab":   tab.Interface(),        // map[string]fresh struct
+		"arr":   arr.Interface(),        // array of fresh struct
 		"svc":   &Svc{N: k},
 		"pt":    Point{X: k, Y: 2},
 		"nums":  []int{k, k + 1, k + 2},
